@@ -438,12 +438,10 @@ def rule_groups(model):
     # EPFS
     import re
     tg = model.func('DT_String', 'String.tagre')
-    pat = None
-    for c in own_nodes(tg.node):
-        if isinstance(c, ast.Call) and norm(c.func) == 're.compile':
-            ok, pat = model.fold(c.args[0], tg)
-    if pat is None:
+    rx = model.returned_regex(tg)
+    if rx is None:
         raise AnalysisError('String.tagre pattern not found')
+    pat = rx[0]
     named = set(re.compile(pat).groupindex)
     ep = model.func('DT_String', 'String.parseTag')
     rdg = set()
@@ -517,62 +515,120 @@ def rule_widths(model):
     return r
 
 
+def _quote_count_offset(e):
+    """k such that the integer expression e equals (number of double quotes
+    in a piece of the text) + k; None if e is not of that shape."""
+    if isinstance(e, ast.Call) and isinstance(e.func, ast.Attribute):
+        if e.func.attr == 'count' and e.args and isinstance(
+                e.args[0], ast.Constant) and e.args[0].value == '"':
+            return 0
+    if isinstance(e, ast.Call) and isinstance(e.func, ast.Name) \
+            and e.func.id == 'len' and len(e.args) == 1:
+        a = e.args[0]
+        if isinstance(a, ast.Call) and isinstance(a.func, ast.Attribute) \
+                and a.func.attr == 'split' and a.args and isinstance(
+                    a.args[0], ast.Constant) and a.args[0].value == '"':
+            return 1
+    if isinstance(e, ast.BinOp) and isinstance(e.op, (ast.Add, ast.Sub)) \
+            and isinstance(e.right, ast.Constant) \
+            and isinstance(e.right.value, int):
+        k = _quote_count_offset(e.left)
+        if k is not None:
+            return k + (e.right.value if isinstance(e.op, ast.Add)
+                        else -e.right.value)
+    return None
+
+
+def _even_when_true(t):
+    """True/False: the test t holds exactly when the quote count is even /
+    odd; None when t is not a parity test of a quote count."""
+    if isinstance(t, ast.UnaryOp) and isinstance(t.op, ast.Not):
+        v = _even_when_true(t.operand)
+        return None if v is None else not v
+    if isinstance(t, ast.BinOp) and isinstance(t.op, ast.Mod) \
+            and isinstance(t.right, ast.Constant) and t.right.value == 2:
+        k = _quote_count_offset(t.left)
+        if k is None:
+            return None
+        return k % 2 == 1            # truthy <=> count + k odd
+    if isinstance(t, ast.Compare) and len(t.ops) == 1 and isinstance(
+            t.comparators[0], ast.Constant) \
+            and t.comparators[0].value in (0, 1):
+        v = _even_when_true(t.left)
+        if v is None or not isinstance(t.left, ast.BinOp):
+            return None
+        one = t.comparators[0].value == 1
+        if isinstance(t.ops[0], ast.Eq):
+            return v if one else not v
+        if isinstance(t.ops[0], ast.NotEq):
+            return (not v) if one else v
+    return None
+
+
+def _quote_parity_tests(fn_or_stmt):
+    """For every conditional on the parity of a quote count inside a search
+    loop: True when an even count accepts the '>' (leaves the loop) and an
+    odd count keeps searching."""
+    out = []
+    for n in ast.walk(fn_or_stmt):
+        if not isinstance(n, ast.If):
+            continue
+        tests = [n.test]
+        disj = False
+        if isinstance(n.test, ast.BoolOp) and isinstance(n.test.op, ast.Or):
+            tests = list(n.test.values)
+            disj = True
+        for t in tests:
+            v = _even_when_true(t)
+            if v is None:
+                continue
+
+            def leaves(body):
+                return bool(body) and isinstance(
+                    body[-1], (ast.Break, ast.Return))
+
+            def stays(body):
+                return not body or isinstance(
+                    body[-1], (ast.Continue, ast.Pass)) or not leaves(body)
+            if v:
+                out.append(leaves(n.body) and (disj or stays(n.orelse)))
+            else:
+                out.append(not disj and stays(n.body) and (
+                    leaves(n.orelse) or not n.orelse))
+    return out
+
+
 def rule_scanner_twins(model):
     r = RuleResult('C07.R6', 'the SGML scanner finds the end of an open tag '
                    '(<dtml-x ...>) and of a close tag (</dtml-x ...>) the '
                    'same way (quote-aware)')
-    from ..linear import canon
-    sc = model.func('DT_HTML', 'dtml_re_class.search')
-    from .c01 import prefix_tests
-    branches = {}
-    for lit, node, _, _ in prefix_tests(model, sc):
-        if lit in ('<dtml-', '</dtml-'):
-            par = node
-            while par is not None and not isinstance(par, ast.If):
-                par = getattr(par, '_dt_parent', None)
-            if par is not None:
-                branches[lit] = par.body
-    if set(branches) != {'<dtml-', '</dtml-'}:
+    from . import scan
+    res = scan.scan(model)
+    sc = res.fi
+    sig = {}
+    for k in ('<dtml-', '</dtml-'):
+        evs = {(kind, 'start' if off == 0 else off - lk)
+               for kind, node, off, lk, known
+               in res.events.values() if known == k
+               and kind not in ('search', 'call')}
+        par = [(v, t) for kn, v, t in res.parity.values() if kn == k]
+        sig[k] = (evs, {v for v, _ in par})
+        r.instance(sc.where, f'{k!r} tags: ' + ', '.join(
+            f'{a}@{b}' for a, b in sorted(evs, key=str)),
+            f'quote parity tests {sorted({v for v, _ in par})}')
+        if not par or not all(v for v, _ in par):
+            r.finding(sc.where, f'{k} branch', 'the end of the tag is '
+                      'searched without regard to quoted attribute values',
+                      node=sc.node, ctx=sc)
+    if not sig['<dtml-'][0] or not sig['</dtml-'][0]:
         raise AnalysisError('scanner: dtml open/close branches not found')
-
-    def core(stmts):
-        out = []
-        for st in stmts:
-            s_ = norm(st)
-            # prefix width and the end marker legitimately differ
-            if isinstance(st, ast.Assign) and isinstance(
-                    st.value, ast.BinOp) and isinstance(
-                    st.value.right, ast.Constant) and isinstance(
-                    st.value.right.value, int):
-                continue
-            if s_.startswith('end ='):
-                continue
-            out.append(st)
-        return out
-    a, b = core(branches['<dtml-']), core(branches['</dtml-'])
-    r.instance(sc.where, ' ; '.join(norm(x) for x in a)[:150], 'open')
-    r.instance(sc.where, ' ; '.join(norm(x) for x in b)[:150], 'close')
-    if canon(a) != canon(b):
+    if sig['<dtml-'] != sig['</dtml-']:
         r.finding(sc.where, 'open/close tag delimiting', 'the open-tag and '
                   'the close-tag branch of the scanner delimit the tag '
                   'differently (e.g. only one of them skips ">" inside '
                   'quoted attribute values): the same template compiles '
                   'differently in the dtml syntax than in the others',
                   node=sc.node, ctx=sc)
-    # both must be quote aware
-    for k, stmts in branches.items():
-        src = ' '.join(norm(x) for x in stmts)
-        # helpers of the same module the branch calls
-        for st in stmts:
-            for c in ast.walk(st):
-                if isinstance(c, ast.Call):
-                    for t in model.resolve_callee(c.func, sc):
-                        if t[0] == 'func' and t[1].module is sc.module:
-                            src += ' ' + ast.unparse(t[1].node)
-        if "split('\"')" not in src:
-            r.finding(sc.where, f'{k} branch', 'the end of the tag is '
-                      'searched without regard to quoted attribute values',
-                      node=sc.node, ctx=sc)
     return r
 
 
@@ -594,18 +650,10 @@ def rule_epfs_language(model):
     from .. import regexa
     import re
     tg = model.func('DT_String', 'String.tagre')
-    pat = flags = None
-    for c in own_nodes(tg.node):
-        if isinstance(c, ast.Call) and norm(c.func) == 're.compile':
-            ok, pat = model.fold(c.args[0], tg)
-            flags = 0
-            for a in c.args[1:]:
-                for x in ast.walk(a):
-                    if isinstance(x, ast.Attribute) and x.attr.isupper() \
-                            and hasattr(re, x.attr):
-                        flags |= int(getattr(re, x.attr))
-    if pat is None:
+    rx = model.returned_regex(tg)
+    if rx is None:
         raise AnalysisError('String.tagre pattern not found')
+    pat, flags = rx[0], rx[1]
     for label, ref in (
             ('named attributes', EPFS_NAMED_ATTRS),
             ('"..." shorthand as a bare argument', EPFS_MUST_ACCEPT)):
